@@ -209,12 +209,35 @@ func (r *lrunner) setup() {
 	Conf.InitDefault()
 	Conf.Home = r.dir
 	Conf.NumBucket = c.Buckets
-	Conf.BucketsStat = make([]int, c.Buckets)
 	r.served = map[int]bool{}
 	for _, b := range c.Served {
-		Conf.BucketsStat[b] = 1
 		r.served[b] = true
 	}
+	// the served buckets reach the store the way they do in production: a route table in YAML (this server owns the
+	// scenario's buckets, another one owns the rest), decoded by config.RouteTable and turned into DBRouteConfig
+	hexid := func(b int) string {
+		if c.Buckets > 16 {
+			return fmt.Sprintf("%02x", b)
+		}
+		return fmt.Sprintf("%x", b)
+	}
+	mine, others := []string{}, []string{}
+	for b := 0; b < c.Buckets; b++ {
+		if r.served[b] {
+			mine = append(mine, "\""+hexid(b)+"\"")
+		} else {
+			others = append(others, "\""+hexid(b)+"\"")
+		}
+	}
+	yml := fmt.Sprintf("numbucket: %d\nmain:\n- addr: self:7900\n  buckets: [%s]\n- addr: other:7900\n  buckets: [%s]\nbackup: []\n",
+		c.Buckets, strings.Join(mine, ", "), strings.Join(others, ", "))
+	rt := &config.RouteTable{}
+	if err := rt.LoadFromYaml([]byte(yml)); err != nil {
+		panic("route table: " + err.Error())
+	}
+	rc := rt.GetDBRouteConfig("self:7900")
+	Conf.NumBucket = rc.NumBucket
+	Conf.BucketsStat = rc.BucketsStat
 	Conf.TreeHeight = c.Height
 	Conf.TreeDump = 3
 	Conf.CheckVHash = c.CheckVHash
@@ -249,7 +272,15 @@ func (r *lrunner) open() error {
 		return err
 	}
 	r.store = st
-	for range r.sc.Conf.Served { // background hint re-check of every opened bucket
+	// which buckets the store actually serves (an observation: it must be exactly the buckets of the route table)
+	ready := []int{}
+	for b, bkt := range st.buckets {
+		if bkt != nil && bkt.State == BUCKET_STAT_READY {
+			ready = append(ready, b)
+		}
+	}
+	vl.emit(ev{"a": "Ready", "l": 1, "ready": ready})
+	for range ready { // background hint re-check of every opened bucket
 		select {
 		case <-vs.bgDone:
 		case <-time.After(30 * time.Second):
